@@ -142,7 +142,7 @@ def gen_c05_random(rnd, tier):
             pts = with_repeats(rnd, pts)            # the listing repeats some joints; the curve is the same
         mode = rnd.choice(('count', 'count', 'spacing', 'maxspacing', 'spacing_div', 'spacing_div'))
         if mode == 'spacing_div':
-            k = rnd.randint(3, 160)            # spacing = length / k as a float: divides the length only up to rounding
+            k = rnd.randint(3, 64)             # spacing = length / k as a float: divides the length only up to rounding (k <= 64 keeps the judge's exact rationals within 31 bits)
         elif mode == 'count':
             k = rnd.randint(3 if fc else 2, 64)
         elif mode == 'spacing':
